@@ -37,7 +37,8 @@ type outcome struct {
 	inv       string
 	results   []string
 	tolerated map[string]int
-	errors    int // commands that were refused (and left the catalogue unchanged)
+	errors    int             // commands that were refused (and left the catalogue unchanged)
+	fields    map[string]bool // "Type.Field" names that were non-zero in the final catalogue
 }
 
 // checkHistory applies the ops to one FSM instance and runs the invariant suite after every step.
@@ -50,6 +51,7 @@ func checkHistory(cs *Case) (out outcome) {
 	f := mg.NewFSM(cs.Cfg)
 	tr := NewTracker()
 	prev := dumpNoPos(f.Data())
+	defer func() { out.fields = mg.FieldsSet(f.Data()) }()
 	for i, o := range cs.Ops {
 		res, p := mg.SafeApply(f, i, o)
 		if p != "" {
@@ -130,6 +132,19 @@ func addTotals(campaign string, g *mg.Gen) {
 		note[k] = fmt.Sprintf("generated %d, succeeded %d", m[k][0], m[k][1])
 	}
 	ev.Note(campaign, "ops_per_command_type_in_one_process", note)
+}
+
+var fieldTotals = map[string]*mg.FieldTotals{}
+
+func addFieldTotals(campaign string, set map[string]bool) {
+	ft := fieldTotals[campaign]
+	if ft == nil {
+		ft = &mg.FieldTotals{}
+		fieldTotals[campaign] = ft
+	}
+	ft.Add(set)
+	pop, never := ft.Summary()
+	ev.Note(campaign, "fields_populated_in_final_catalogue_in_one_process", map[string]any{"histories": ft.Cases, "non_zero_in_n_histories": pop, "never_populated": never})
 }
 
 func runCatalogue(t *rapid.T, c *ev.Case, campaign string, prof mg.Profile, maxLen int) {
@@ -216,6 +231,11 @@ func runCatalogue(t *rapid.T, c *ev.Case, campaign string, prof mg.Profile, maxL
 		}
 	}
 	addTotals(campaign, g)
+	// fields populated (generator strength: a field no history sets is not exercised by any invariant)
+	for k := range out.fields {
+		c.Class("field non-zero in final catalogue: " + k)
+	}
+	addFieldTotals(campaign, out.fields)
 	if nt {
 		c.Nontrivial(cs)
 		var head []string
